@@ -895,6 +895,9 @@ pub fn mutate_tokens(rng: &mut Rng, src: &str, n: usize) -> String {
 /// declarations, `this` forms, destructuring defaults, unary zoo, labelled continue, tagged member
 /// templates, comments between operands, inner directives, redeclarations, import.meta, HTML comments...
 pub const ZOO: &[&str] = &[
+    r####"function z53(a, b) { 'use strict';; return a + b(); }"####,
+    r####"function z54(a, b) { 'use client'; 'use strict';; ; return `${a}${b}`; }"####,
+    r####"function z55(a, b) { 'use asm'; ; 'use strict'; return a.concat(b); }"####,
     r####"function z50(a, b, o) { delete o.find(a + b); delete (o.prop); delete 0; delete this; delete a?.b; delete o[a + b]; delete o.p.q; delete (0, o.p); delete `t${a}`; return a + b; }"####,
     r####"function z51(a, b) { return fn0() + fn0(a) + fn0(...b) + fn0(a, b, a + b) + trim() + concat() + fn0?.() + new fn0() + fn0`t` + (0, fn0)() + fn0.call(); }"####,
     r####"function z52(a, b) { return `${a}${'px'}${'!'}` + `${'<b>'}${a}${'</b>'}` + `${'x'}${'y'}${a}` + `${1}${a}${null}${b}${true}` + `${`${a}`}${'z'}`; }"####,
@@ -978,6 +981,20 @@ pub fn gen_corpus(rng: &mut Rng, n: usize) -> String {
         s.push('\n');
     }
     s
+}
+
+/// a program that starts with a directive prologue in unusual shapes (several directives, stray `;`)
+pub fn gen_prologue(rng: &mut Rng) -> String {
+    let d = *rng.pick(&["'use strict';", "\"use strict\";;", "'use client'; 'use strict';", "'use client';\n'use strict';;", "'use asm';;;", "\"use strict\";;(function () { return 1; })();", ";'use strict';"]);
+    format!("{}\nfunction after(a, b) {{ return a + b(); }}\n(function (a, b) {{ return `${{a}}${{b}}`; }})('x', 'y');\n", d)
+}
+
+/// a one-line script with a syntax error at its end and kilobytes of non-ASCII text before it (the
+/// diagnostic quotes the line): multi-byte characters at every byte offset
+pub fn gen_long_line_error(rng: &mut Rng) -> String {
+    let pad = "p".repeat(rng.below(8));
+    let body = "\u{e9}\u{4f60}".repeat(rng.range(300, 900));
+    format!("function f(a) {{ const s = '{}{}'; return a+; }}\n", pad, body)
 }
 
 /// one construct repeated n times inside a block (anything that is counted per file, per block or per
